@@ -116,8 +116,11 @@ func (p *Parser) Parse() (al align.Alignment, err error) {
 		}
 
 		if tok == MARKUP {
-			for tok != ENDOFLINE {
+			for tok != ENDOFLINE && tok != EOF {
 				tok, _ = p.scanIgnoreWhitespace()
+			}
+			if tok == EOF {
+				break
 			}
 			continue
 		}
@@ -141,7 +144,7 @@ func (p *Parser) Parse() (al align.Alignment, err error) {
 		}
 	}
 
-	if al.Length() == 0 {
+	if al.NbSequences() == 0 || al.Length() == 0 {
 		err = fmt.Errorf("no sequence in this Stockholm file")
 		return
 	}
